@@ -35,12 +35,18 @@ def main():
             if prefixes and not any(m["name"].startswith(p) for p in prefixes):
                 continue
             sh("git checkout -- .", cwd=WT)
-            path = os.path.join(WT, m["file"])
-            src = open(path).read()
-            if src.count(m["old"]) != 1:
-                res = {"name": m["name"], "status": "does-not-apply", "count": src.count(m["old"])}
+            edits = m.get("edits") or [{"file": m["file"], "old": m["old"], "new": m["new"]}]
+            bad = 0
+            for e in edits:
+                path = os.path.join(WT, e["file"])
+                src = open(path).read()
+                if src.count(e["old"]) != 1:
+                    bad += 1
+                else:
+                    open(path, "w").write(src.replace(e["old"], e["new"]))
+            if bad:
+                res = {"name": m["name"], "status": "does-not-apply"}
             else:
-                open(path, "w").write(src.replace(m["old"], m["new"]))
                 rc, o = sh("go build ./...", cwd=WT)
                 if rc != 0:
                     res = {"name": m["name"], "status": "does-not-compile", "tail": o[-300:]}
